@@ -445,7 +445,3 @@ func calleeOf(p *syntax.Pipeline, callId string) string {
 	}
 	return ""
 }
-
-func (v *vdrRun) modelChecks() {}
-
-func vdrPureChecks(c *Ctx, prop string) {}
